@@ -138,8 +138,11 @@ def C06(ctx):
     ctx.rule = ("reduction machine: all pools of <= 3/4 candidates over 10 names x 4 patterns, all orders of pairwise "
                 "reduction (TLC interleavings); simulated reduction behaviours replayed step by step on the real code; "
                 "random pools of <= 8 names with random reduction orders recorded and validated through the Reduce "
-                "action; best_match pairs in both argument orders; non-trivial = some candidate matches")
+                "action; best_match pairs in both argument orders; TLAPS proof (spec/tlaps/ReduceProofs.tla, pools of any "
+                "size): pairwise reduction in any order from any start ends with the unique best candidate; "
+                "non-trivial = some candidate matches")
     ctx.mc("MC_BestMatch", "MC_BestMatch.%s.cfg" % t)
+    ctx.tlaps("ReduceProofs")
     ctx.emit_replay("MC_BestMatch", "MC_BestMatch.sim.cfg", "reduce-sim", workers=1,
                     simulate="num=%d" % q(ctx, 2000, 20000), seed=ctx.seed)
     ctx.record_validate("best", q(ctx, 10000, 100000), "Tr_Pattern", "Tr_Pattern.cfg")
